@@ -2,6 +2,7 @@ package sim
 
 import (
 	"fmt"
+	"os"
 
 	reportertypes "github.com/tellor-io/layer/x/reporter/types"
 )
@@ -41,6 +42,23 @@ func DebugState(c *Chain) {
 		}
 		return false, nil
 	})
+	if w := os.Getenv("LAYERSIM_WATCH"); w != "" {
+		var idx int
+		fmt.Sscanf(w, "%d", &idx)
+		if idx >= 0 && idx < len(c.Accounts.Actors) {
+			a := c.Accounts.Actors[idx]
+			fmt.Printf("  watch actor %d %s balance=%s\n", idx, a.Addr, v.Balance(a.Addr))
+			for _, d := range v.Delegations(a.Addr) {
+				fmt.Printf("     delegation val=%s shares=%s\n", d.ValidatorAddress[len(d.ValidatorAddress)-6:], d.Shares)
+			}
+			ubds, _ := v.n.App.StakingKeeper.GetAllUnbondingDelegations(v.ctx, a.Addr)
+			for _, u := range ubds {
+				for _, e := range u.Entries {
+					fmt.Printf("     unbonding val=%s balance=%s\n", u.ValidatorAddress[len(u.ValidatorAddress)-6:], e.Balance)
+				}
+			}
+		}
+	}
 	for _, p := range v.FeePayers() {
 		fmt.Printf("  payer dispute=%d %s amount=%s fromBond=%v\n", p.ID, p.Payer.String()[len(p.Payer.String())-6:], p.Info.Amount, p.Info.FromBond)
 	}
